@@ -85,11 +85,18 @@ def gen_calls(ch: Any, svc: Service) -> list[Call]:
         if kind == "unary":
             outcome = ["ok", "raise"][ch.choose(2, f"base{i}.out")]
         elif kind == "producer":
-            outcome = ["ok", "init_raise", "step_raise"][ch.choose(3, f"base{i}.out")]
+            outcome = ["ok", "init_raise", "step_raise", "late_raise"][ch.choose(4, f"base{i}.out")]
         else:
             outcome = ["ok", "step_raise"][ch.choose(2, f"base{i}.out")]
-        c = gen_call(ch, svc, 100 + i, f"base{i}", method=m.name, outcome=outcome, cb_raise=False, client_exits=False, simple_exc=True,
-                     perturb_inputs=False)
+        c = gen_call(ch, svc, 100 + i, f"base{i}", method=m.name, outcome="ok" if outcome == "late_raise" else outcome, cb_raise=False,
+                     client_exits=False, simple_exc=True, perturb_inputs=False)
+        if outcome == "late_raise":
+            # a producer that fails on a LATER turn: over HTTP that turn is a continuation (/exchange) request answered
+            # 200 + X-VGI-RPC-Error - the in-band failure path of the exchange route
+            good = [("emit", 1, None)]
+            c.beh.steps = [list(good) for _ in range(1 + ch.choose(2, f"base{i}.late"))] + [[("raise", "ValueError", f"late{100 + i}")]]
+            c.beh.zero_cols = False
+            c.take, c.ending = 6, "exhaust"
         if kind != "unary":
             c.take = max(c.take, 2)
             if kind == "exchange":
@@ -139,10 +146,18 @@ def run(ctx: RunCtx) -> None:
     compression = bool(ch.choose(2, "cfg.comp"))
     cache0 = bool(ch.choose(2, "cfg.cache0"))
     with_cap = bool(ch.choose(2, "cfg.maxreq"))
+    # a response cap between the size of any unary / exchange answer and one padded producer batch: the producer then
+    # continues over /exchange one batch per turn, so its later steps (and their failures) are continuation requests
+    resp_cap = [None, 2500][ch.choose(2, "cfg.respcap")]
+    if resp_cap is not None:
+        for c in calls:
+            if c.beh.kind == "producer":
+                c.beh.big = 3000
     world = M.install_world([svc], calls)
     try:
         kw: dict[str, Any] = dict(prefix=prefix, token_key=b"k" * 32, compression_level=1 if compression else None,
-                                  authenticate=M.s2.header_authenticate, call_state_cache_entries=0 if cache0 else 4096)
+                                  authenticate=M.s2.header_authenticate, call_state_cache_entries=0 if cache0 else 4096,
+                                  max_response_bytes=resp_cap)
         # first pass without a request cap to learn the size of the valid requests
         with M.mon_cluster(ctx, svc.protocol, svc.impl_cls, label="h0", app_kwargs=kw) as (cl0, _):
             M.drive_calls(cl0, svc, calls, prefix=prefix, identity=IDENT)
@@ -152,6 +167,16 @@ def run(ctx: RunCtx) -> None:
         with M.mon_cluster(ctx, svc.protocol, svc.impl_cls, label="h1", app_kwargs=kw) as (cl, _):
             traces = M.drive_calls(cl, svc, calls, prefix=prefix, identity=IDENT)
             bases = [r for r in cl.requests if r["method"] == "POST" and r["status"] == 200]
+            # the harvested (valid) traffic itself: a 200 carries the marker exactly when its body carries an error batch
+            for r in bases:
+                mk = r["resp_headers"].get("x-vgi-rpc-error", "").lower() == "true"
+                hx_ = bool(M.has_exception(M.decoded_body(r)))
+                if mk != hx_:
+                    rk_ = route_kind(r["path"], prefix)
+                    ctx.violation("C15", "marker", f"{rk_}:marker={mk},exception={hx_}", f"valid {rk_} request {r['path']} (request "
+                                  f"{r['n']} of the client's own traffic {[(q['path'], q['status']) for q in cl.requests]}): "
+                                  f"X-VGI-RPC-Error={mk} but the body {'carries' if hx_ else 'carries no'} EXCEPTION batch")
+                    return
             ctx.log.add("bases", [(r["path"], r["status"], len(r["req_body"])) for r in cl.requests], [t[-1][0] if t else None for t in traces])
             if not bases:
                 ctx.violation("C15", "no-base", "harvest", f"no valid request was answered 200: {[(r['path'], r['status']) for r in cl.requests]}")
@@ -386,15 +411,46 @@ def run(ctx: RunCtx) -> None:
                         if rk == "init" and c.beh.term[0] == "stream" and svc.spec(meth).kind == "producer":
                             # the first producer turn runs inside /init (no response cap: one step per turn)
                             want_fail = bool(c.beh.steps) and any(op[0] == "raise" for op in c.beh.steps[0])
+                        if resp_cap is not None and rk == "init" and svc.spec(meth).kind == "producer":
+                            want_fail = bool(hx)  # under a response cap the init turn runs as many steps as fit: not predicted here
                         if want_fail != bool(hx):
                             report("marker", f"{rk}:behaviour-fails={want_fail},exception={bool(hx)}", f"{what}: the generated behaviour "
                                    f"{'raises' if want_fail else 'does not raise'} in this request but the response "
                                    f"{'carries' if hx else 'carries no'} EXCEPTION batch {M.exception_messages(dec)[:1]}")
                             continue
-            ctx.case_key = (tuple(sorted(set(combos))), prefix, compression, with_cap, cache0, version)
+            # ---- history independence: the answer to a valid request does not depend on what the worker answered before.
+            # Every harvested request that failed in-band (200 + marker) is replayed, each followed by the harvested
+            # requests that succeeded; statelessness makes a replay legitimate, and its status / marker / error batch
+            # must be what they were the first time.
+            def shape(r: dict[str, Any]) -> tuple:
+                d_ = M.decoded_body(r)
+                return (r["status"], r["resp_headers"].get("x-vgi-rpc-error", "").lower() == "true", bool(M.has_exception(d_)))
+
+            first = {id(r): shape(r) for r in bases}
+            failing = [r for r in bases if first[id(r)][1]][:3]
+            clean = [r for r in bases if not first[id(r)][1]]
+            clean = ([r for r in clean if r["path"].endswith("/exchange")] + [r for r in clean if not r["path"].endswith("/exchange")])[:4]
+            if any(r["path"].endswith("/exchange") for r in failing):
+                ch.probe("harvest:in-band-failing-continuation")
+            for fr in failing:
+                for r in [fr] + clean:
+                    cl.deliver(0, "POST", r["path"], r["req_body"], dict(r["req_headers"]))
+                    now_ = shape(cl.requests[-1])
+                    if now_ != first[id(r)]:
+                        rk_ = route_kind(r["path"], prefix)
+                        ch.fault("replay-after-in-band-failure")
+                        ctx.violation("C15", "history", f"{rk_}:{first[id(r)]}->{now_}",
+                                      f"the valid {rk_} request {r['path']} was answered (status, X-VGI-RPC-Error, has EXCEPTION batch) = "
+                                      f"{first[id(r)]} the first time and {now_} when replayed after the in-band failure of {fr['path']}")
+                        break
+                else:
+                    ch.probe("replayed-after-in-band-failure")
+                    continue
+                break
+            ctx.case_key = (tuple(sorted(set(combos))), prefix, compression, with_cap, cache0, version, resp_cap)
             ctx.nontrivial = any(c for _, c in combos)
             ctx.sample = {"service": [(m.name, m.kind) for m in svc.methods], "prefix": prefix, "compression": compression,
-                          "max_request_bytes": max_req, "cache_disabled": cache0, "protocol_version": version,
+                          "max_request_bytes": max_req, "max_response_bytes": resp_cap, "cache_disabled": cache0, "protocol_version": version,
                           "requests": [{"route": rk, "mutations": list(c)} for rk, c in combos]}
     finally:
         rt.set_world(None)
